@@ -355,7 +355,7 @@ def bound(tier):
   if tier == 'quick':
     return ('%d configurations x call sequences over %d events: depth<=4 on cfg_refs, depth<=3 on the two others' %
             (len(CONFIGS), len(EVENTS_Q)))
-  return '%d configurations x call sequences depth<=5 over %d events' % (len(CONFIGS), len(EVENTS) + len(REBIND))
+  return '%d configurations x call sequences depth<=4 over %d events' % (len(CONFIGS), len(EVENTS) + len(REBIND))
 
 
 def do_event(ev):
@@ -840,7 +840,7 @@ def run(ctx):
   harness.hard_reset()
   mod = __import__('checks.c07', fromlist=['x'])
   evs = EVENTS_Q if ctx.quick else list(EVENTS) + list(REBIND)
-  depth = 4 if ctx.quick else 5
+  depth = 4      # (thorough: the full event menu at this depth on every configuration)
   res.extra['alphabet'] = evs
   for cname in CONFIGS:
     ctx.close()  # workers must see World.CNAME
